@@ -646,3 +646,54 @@ M.contract('exactly_lib.impls.types.line_matcher.line_nums_interval:interval_of_
            ensures={'covers-every-accepted-line-number': lambda matcher, result, n:
            implies(n >= FIRST_LINE_NUMBER and D(matcher, n), mem(result, n))},
            raises_only=())
+
+# ------------------------------------------------------------------------------ presenting the lines of the interval
+from pyvc.api import IterOf
+
+P_MC = 'exactly_lib.impls.types.line_matcher.model_construction'
+
+
+class IsLastI(Interface):
+    """predicate on line numbers: 'this is the last line number of the interval'"""
+    methods = {'__call__': Method(returns=Bool, pure=True)}
+
+
+def _correctly_numbered(yielded, X, s, k):
+    """the k-th item is line s+k (0-based) of the input with its 1-based number and its text without new-line"""
+    return yielded[k][0] == X[s + k] and yielded[k][1][0] == s + k + 1 and yielded[k][1][1] == X[s + k].rstrip('\n')
+
+
+_PAIR = FixedList(Str, FixedList(Int, Str, as_tuple=True), as_tuple=True)
+
+M.contract(P_MC + ':_line_of', params=dict(n=Int, full_line=Str), inline=True,
+           ensures={'pair': lambda n, full_line, result:
+           result[0] == full_line and result[1][0] == n and result[1][1] == full_line.rstrip('\n')},
+           raises_only=())
+
+M.contract(P_MC + ':_lines_interval',
+           params=dict(num_to_skip=Nat, is_last_line_num=Iface(IsLastI), lines=IterOf(Str)),
+           yields=ListOf(_PAIR),
+           ensures={
+               'every-item-is-a-correctly-numbered-line-in-order': lambda num_to_skip, lines, yielded:
+               forall_range(0, len(yielded), lambda k: _correctly_numbered(yielded, lines.xs, num_to_skip, k)),
+               'starts-after-the-skipped-lines-and-stays-inside-the-text': lambda num_to_skip, lines, yielded:
+               num_to_skip + len(yielded) <= max(len(lines.xs), num_to_skip),
+               'nothing-after-the-last-line-number': lambda num_to_skip, is_last_line_num, yielded:
+               forall_range(0, len(yielded) - 1, lambda k: not is_last_line_num(num_to_skip + k + 1)),
+               'no-line-of-the-window-is-lost': lambda num_to_skip, is_last_line_num, lines, yielded:
+               (num_to_skip + len(yielded) == len(lines.xs))
+               or (len(lines.xs) <= num_to_skip and len(yielded) == 0)
+               or (len(yielded) > 0 and is_last_line_num(num_to_skip + len(yielded))),
+           }, raises_only=())
+
+M.loop(P_MC + ':_lines_interval', 0,
+       invariant=lambda _i, ln, num_to_skip, yielded: ln == _i and ln < num_to_skip and len(yielded) == 0,
+       modifies={'ln': Int, '_': 'local'})
+
+M.loop(P_MC + ':_lines_interval', 1,
+       invariant=lambda _i, _start, ln, num_to_skip, is_last_line_num, lines, yielded:
+       ln == _i and len(yielded) == _i - _start
+       and (_start == num_to_skip or (_start == len(lines.xs) and _start < num_to_skip))
+       and forall_range(0, len(yielded), lambda k: _correctly_numbered(yielded, lines.xs, num_to_skip, k))
+       and forall_range(0, len(yielded), lambda k: not is_last_line_num(num_to_skip + k + 1)),
+       modifies={'ln': Int, 'line': 'local', 'yielded': 'len'})
